@@ -58,7 +58,8 @@ func init() {
 					n := []string{"s", "t", "s.u"}[rng.Intn(3)]
 					scopes = append(scopes, &sc{s: p.s.SubScope(n), prefix: qualify(p.prefix, n), tags: p.tags, mids: map[string]bool{}})
 				} else {
-					tg := []map[string]string{{"k": "v"}, {"k": "w"}, {"env": "x", "z": ""}}[rng.Intn(3)]
+					// incl. derivations that lead back to the parent's own identity (no tags; a tag the root already carries)
+					tg := []map[string]string{{"k": "v"}, {"k": "w"}, {"env": "x", "z": ""}, {}, {"env": "t"}}[rng.Intn(5)]
 					scopes = append(scopes, &sc{s: p.s.Tagged(tg), prefix: p.prefix, tags: mergeTags(p.tags, tg), mids: map[string]bool{}})
 				}
 			}
@@ -181,6 +182,9 @@ func init() {
 					desc += "h"
 				case k == 8 && len(scopes) > 1:
 					j := 1 + rng.Intn(len(scopes)-1)
+					if scopes[j].s == tally.Scope(ts) {
+						break // a derivation that led back to the root itself: closing it would close the root, not a sub-scope
+					}
 					if c, ok := scopes[j].s.(io.Closer); ok {
 						c.Close()
 					}
